@@ -404,6 +404,33 @@ def run_noplugins(spec, ctx, rng, u, reg):
             check_pel(ctx, p, False, rng)
 
 
+def check_empty_payload(ctx, rng, u):
+    """A user-data section that carries NO payload (its length says: header only).  Whether a log with such a section is
+    accepted is not for this property to say - the pinned tree refuses it as a whole.  But IF the section is shown, its
+    parser was consulted with the (empty) payload like with any other: a section is never rendered behind its parser's back."""
+    c, comp = rng.choice([x for x in gen.FX_UD if x[0] in "OBM"])
+    ext = rng.random() < 0.3
+    s = pm.sec_ud(rng, u, c, comp, rng.randrange(256), rng.randrange(256), b"", ext_creator=c if ext else None, expect_mode="plugin")
+    pel = pm.Pel(c, pm.gen_ph(rng, u, c), pm.gen_uh(rng, c), [s, pm.gen_mt(rng, u, c)])
+    data = pel.encode()
+    fxlog.reset()
+    ctx.current = {"pel_hex": data, "sections": ["UD without payload for %s%04X" % (c, comp)], "plugins": True}
+    ctx.case(data + b"empty", True)
+    o = harness.decode(data, harness.make_config(every_pel=True, allow_plugins=True))
+    ctx.count("ud.empty_payload_sections")
+    if o.kind != "doc":
+        ctx.count("ud.empty_payload_log_refused")
+        return
+    name = "Extended User Data" if ext else "User Data"
+    calls = [x for x in fxlog.CALLS if x["kind"] == "ud" and x["module"] == ud_module(c, comp)]
+    if name in o.doc and not calls:
+        ctx.violation("C18/ud-parser-not-consulted/empty-payload",
+                      "a %s section of %s/%04X without payload is shown as %r, but %s was never called" %
+                      (name, c, comp, o.doc[name], ud_module(c, comp)), data=data)
+    elif calls and (calls[0]["data"] != b"" or calls[0]["subtype"] != s.m["sub"] or calls[0]["version"] != s.m["ver"]):
+        ctx.violation("C18/ud-parser-call/data", "parser of a section without payload was called with %s" % short(calls[0]), data=data)
+
+
 def run(spec, ctx):
     harness.repo()
     sys.meta_path.insert(0, Recorder())
@@ -456,3 +483,5 @@ def run(spec, ctx):
         o = check_pel(ctx, pel, plugins, rng)
         if o is not None and plugins:
             containment(ctx, pel, rng, o.doc)
+        if i % 10 == 3:
+            check_empty_payload(ctx, rng, u)
